@@ -117,9 +117,14 @@ fields("ArrayType", element_type=Obj("Type"))
 
 @contract("MembersType.encode", props=["C20", "C12"], for_class="any")
 def _(self, data: Map('str', Val), separator: Str, indent: Int) -> Str:
-    # unconditional half: only the library's encode error escapes, and an error inside a component is located at it
+    # only the library's encode error escapes; and every component that is present in the value is written -- whatever
+    # its value (a NULL component's value is None), OPTIONAL or not: g_in counts the components present in the value,
+    # g_out the components written
     raises(EncodeError)
-    loop(0, invariant=[True])
+    ghost_init(g_in=0, g_out=0)
+    at_stmt("name = member.name", set=dict(g_in=g_in + (1 if member.name in data else 0)))
+    at_stmt("encoded_members.append(encoded_member)", set=dict(g_out=g_out + 1))
+    loop(0, invariant=[g_in == g_out])
 
 
 @contract("ArrayType.encode", props=["C20", "C12"], for_class="any")
